@@ -9,10 +9,10 @@
 #ifndef K
 #define K 2
 #endif
-static const char *FILE0 = "ab x ab\ncab ab\nababab\nab\n";	/* adjacent occurrences too */
+static const char *FILE0 = "ab x ab\ncab ab\nababab\nab\nb/ b\\\n";	/* adjacent occurrences too; the last line is for a pattern ending in an escaped backslash */
 #define NOCC 8
 static const int occ[NOCC][2] = {{0, 0}, {0, 5}, {1, 1}, {1, 4}, {2, 0}, {2, 2}, {2, 4}, {3, 0}};
-static const int linelen[4] = {7, 6, 6, 2};
+static const int linelen[5] = {7, 6, 6, 2, 5};
 static int fwd(int *r, int *o)
 {
 	int i;
@@ -35,18 +35,19 @@ static int bwd(int *r, int *o)
 }
 void harness(void)
 {
-	static const char *menu[] = {"/ab\n", "?ab\n", "n", "N", "/\n", "?\n", "2n", "2N", "2/ab\n"};
+	static const char *menu[] = {"/ab\n", "?ab\n", "n", "N", "/\n", "?\n", "2n", "2N", "2/ab\n", "/b\\\\/\n"};
 	char keys[96];
 	int kn, r, o, k, dir = 0, set = 0, i;
 	env_mkfile("f", FILE0, strlen(FILE0), 5);
-	r = symx_conc(symx_u8("row") % 4);
+	r = symx_conc(symx_u8("row") % 5);
 	o = symx_u8("off");
 	symx_assume(o < linelen[r]);
 	o = symx_conc(o);
 	kn = sprintf(keys, "%dG%d|", r + 1, o + 1);
 	for (k = 0; k < K; k++) {
 		int c = symx_u8("cmd"), n = 1, d;
-		symx_assume(c < 9 && (set || c < 2 || c == 8));	/* the first search must give a pattern */
+		symx_assume(c < 10 && (set || c < 2 || c >= 8));	/* the first search must give a pattern */
+		symx_assume(c != 9 || k == K - 1);			/* the backslash pattern only as the last search */
 		c = symx_conc(c);
 		kn += sprintf(keys + kn, "%s", menu[c]);
 		if (c == 0 || c == 4 || c == 8) dir = 1;
@@ -54,6 +55,10 @@ void harness(void)
 		set = 1;
 		d = (c == 3 || c == 7) ? -dir : dir;
 		if (c == 6 || c == 7 || c == 8) n = 2;
+		if (c == 9) {	/* /b\\/ : the pattern is b followed by a backslash, found once, at (4,3) */
+			if (r < 4 || (r == 4 && o < 3)) { r = 4; o = 3; }
+			continue;
+		}
 		{
 			int tr = r, to = o, fail = 0;
 			for (i = 0; i < n && !fail; i++)
